@@ -1021,6 +1021,9 @@ def run_parts(run, parts, only=None, pendings=1, kinds=None, mandatory=True):
         ks = (0, 1, 2, 3) if run.tier == "quick" else (0, 1, 2, 3, 4)
         res = ruleset_obligations(run, prog, ks, pendings=pendings, only=only)
         finish_family(run, helper, res, lambda info, cex: ruleset_scenario(info["k"], cex), mandatory)
+    if "rulebuilder" in parts:
+        res = rulebuilder_obligations(run, prog, run.tier, only=only)
+        finish_rulebuilder(run, helper, res, mandatory)
     if "conversions" in parts:
         res = conversion_obligations(run, prog, run.tier, only=only)
         finish_convert(run, helper, res, mandatory)
@@ -1420,3 +1423,389 @@ def finish_convert(run, helper, res, mandatory=True):
             c.pop("_case", None)
         if d["verdict"] == "inconclusive":
             run.inconc(d["id"], d.get("reason", "no verdict"), mandatory=mandatory)
+
+
+# ================================================================================================ C14: RuleBuilder (metadata folding, name / description precedence)
+NAME_K, DESC_K = z3.StringVal("name"), z3.StringVal("description")
+
+
+def _struct_matches(ex, v, st):
+    """Does the structured Value v equal the expected structure st? -> z3 Bool / bool"""
+    kind = st[0]
+    if kind == "lit":
+        try:
+            return ex.to_val(v) == st[1]
+        except Unsupported:
+            return False
+    if kind == "str":
+        if isinstance(v, Agg) and v.ty == "Value" and v.variant == "String" and isinstance(v.fields[0], Str):
+            return v.fields[0].t == st[1]
+        if isinstance(v, SymVal):
+            return v.t == VAL.String(st[1])
+        return False
+    if kind == "vec":
+        if not (isinstance(v, Agg) and v.ty == "Value" and v.variant == "Vec" and isinstance(v.fields[0], VecV) and v.fields[0].items is not None):
+            return False
+        items = v.fields[0].items
+        if len(items) != len(st[1]):
+            return False
+        cs = [_struct_matches(ex, x, y) for x, y in zip(items, st[1])]
+        if any(c is False for c in cs):
+            return False
+        cs = [c for c in cs if c is not True]
+        return z3.And(cs) if cs else True
+    if kind == "map":
+        if not (isinstance(v, Agg) and v.ty == "Value" and v.variant == "Map" and isinstance(v.fields[0], MapV)):
+            return False
+        layers = v.fields[0].layers
+        if len(layers) != len(st[1]) or any(l[0] != "kv" for l in layers):
+            return False
+        cs = []
+        for l, (k, y) in zip(layers, st[1]):
+            c = _struct_matches(ex, l[2], y)
+            if c is False:
+                return False
+            cs.append(l[1].t == k)
+            if c is not True:
+                cs.append(c)
+        return z3.And(cs) if cs else True
+    return False
+
+
+def _meta_matches(ex, mapv, expected):
+    """expected: [(key term, struct)] with pairwise distinct keys under the case guard."""
+    if not isinstance(mapv, MapV) or any(l[0] != "kv" for l in mapv.layers):
+        return False
+    layers = mapv.layers
+    conds = []
+    for k, st in expected:
+        alts = []
+        for i in range(len(layers) - 1, -1, -1):
+            m = _struct_matches(ex, layers[i][2], st)
+            if m is False:
+                continue
+            newer = [layers[j][1].t != k for j in range(i + 1, len(layers))]
+            alts.append(z3.And([layers[i][1].t == k] + newer + ([m] if m is not True else [])))
+        if not alts:
+            return False
+        conds.append(z3.Or(alts))
+    for l in layers:
+        if not expected:
+            return False
+        conds.append(z3.Or([l[1].t == k for k, _ in expected]))
+    return z3.And(conds) if conds else True
+
+
+def rulebuilder_obligations(run, prog, tier, only=None):
+    import itertools
+    out = []
+    en = prog.layouts.canon(["expr", "Expr"])
+    world = World(prog, record_ops=False)
+
+    def mk_shape(i, shape):
+        """-> (Expr value, expected flattened struct or None when the expression is not a constant)"""
+        a, b = z3.Const(f"m{i}.a", VAL), z3.Const(f"m{i}.b", VAL)
+        V = lambda t: Agg(en, "Value", {0: SymVal(t)})        # noqa: E731
+        R = lambda: Agg(en, "Reference", {0: Str(z3.String(f"m{i}.ref"))})    # noqa: E731
+        if shape == "lit":
+            return V(a), ("lit", a)
+        if shape == "nonconst":
+            return R(), None
+        if shape == "list2":
+            return Agg(en, "Vec", {0: VecV([V(a), V(b)])}), ("vec", [("lit", a), ("lit", b)])
+        if shape == "listbad":
+            return Agg(en, "Vec", {0: VecV([V(a), R()])}), None
+        if shape == "map1":
+            kk = z3.String(f"m{i}.inner")
+            return Agg(en, "Map", {0: MapV([("kv", Str(kk), V(a))])}), ("map", [(kk, ("lit", a))])
+        if shape == "nested":
+            return Agg(en, "Vec", {0: VecV([Agg(en, "Vec", {0: VecV([V(a)])}), V(b)])}), ("vec", [("vec", [("lit", a)]), ("lit", b)])
+        raise ValueError(shape)
+
+    combos = [("lit",), ("nonconst",), ("list2",), ("listbad",), ("map1",), ("nested",), ()]
+    combos += [c for c in itertools.product(("lit", "nonconst", "list2"), repeat=2)]
+    if tier == "thorough":
+        combos += [("lit", "lit", "lit"), ("map1", "lit", "list2")]
+    cname, cdesc = z3.String("comment.name"), z3.String("comment.description")
+    for shapes in combos:
+        oid = "rulebuilder_" + ("_".join(shapes) if shapes else "no_metadata")
+        if only and only not in oid:
+            continue
+        m = len(shapes)
+        keys = [z3.String(f"m{i}.key") for i in range(m)]
+
+        def body(ex, shapes=shapes, keys=keys, m=m):
+            # inputs as the grammar produces them: keys are identifier tokens, literal values have literal syntax (bound: Int, Bool, none,
+            # strings over [a-z ]), comment lines are trimmed non-empty texts
+            simple = z3.Star(z3.Union(z3.Range("a", "z"), z3.Re(" ")))
+            trimmed = z3.Concat(z3.Range("a", "z"), z3.Option(z3.Concat(simple, z3.Range("a", "z"))))
+            keyre = z3.Union(z3.Re("name"), z3.Re("description"), z3.Concat(z3.Re("k"), z3.Star(z3.Range("a", "z"))))
+            for i in range(m):
+                ex.assume(z3.InRe(keys[i], keyre))
+                ex.assume(z3.InRe(z3.String(f"m{i}.inner"), z3.Concat(z3.Re("k"), z3.Star(z3.Range("a", "z")))))
+                for t in (z3.Const(f"m{i}.a", VAL), z3.Const(f"m{i}.b", VAL)):
+                    ex.assume(z3.Or(VAL.is_Int(t), VAL.is_Bool(t), VAL.is_None_(t), z3.And(VAL.is_String(t), z3.InRe(VAL.s(t), simple))))
+                    ex.assume(z3.Implies(VAL.is_Int(t), z3.And(VAL.i(t) >= -(1 << 127), VAL.i(t) < (1 << 127))))
+            ex.assume(z3.InRe(cname, trimmed))
+            ex.assume(z3.InRe(cdesc, trimmed))
+            meta = VecV([Agg("tuple", None, {0: Str(keys[i]), 1: mk_shape(i, shapes[i])[0]}) for i in range(m)])
+            r = ex.call(None, "parse::rule::RuleBuilder::parse", [meta, leaf("main")])
+            if not (isinstance(r, Agg) and r.ty == "Result"):
+                raise Unsupported(f"RuleBuilder::parse returned {r}")
+            if r.variant == "Err":
+                return Agg("tuple", None, {0: Str("parse-error"), 1: r.fields[0]})
+            b = r.fields[0]
+            if ex.choose([(True, z3.Bool("has.comment.name")), (False, z3.Not(z3.Bool("has.comment.name")))], "comment-name"):
+                b = ex.call(None, "parse::rule::RuleBuilder::set_name", [b, Str(cname)])
+                if ex.choose([(True, z3.Bool("has.comment.description")), (False, z3.Not(z3.Bool("has.comment.description")))], "comment-description"):
+                    b = ex.call(None, "parse::rule::RuleBuilder::set_description", [b, Str(cdesc)])
+            else:
+                ex.assume(z3.Not(z3.Bool("has.comment.description")))
+            return Agg("tuple", None, {0: Str("built"), 1: ex.call(None, "parse::rule::RuleBuilder::build", [b])})
+        # ---- the reference fold, one specification case per assignment of the key atoms
+        cases = []
+        roles = list(itertools.product(("name", "description", "other"), repeat=m))
+        for role in roles:
+            others = [i for i in range(m) if role[i] == "other"]
+            eq_opts = [False, True] if len(others) == 2 and m == 2 else [False]
+            for eq in eq_opts:
+                str_opts = list(itertools.product([False, True], repeat=sum(1 for i in range(m) if role[i] == "name" and shapes[i] == "lit")))
+                for strs in str_opts:
+                    for hn, hd in ((False, False), (True, False), (True, True)):
+                        g = []
+                        for i in range(m):
+                            g.append(keys[i] == NAME_K if role[i] == "name" else z3.And(keys[i] != NAME_K, keys[i] == DESC_K if role[i] == "description" else keys[i] != DESC_K))
+                        if len(others) >= 2:
+                            if m == 2:
+                                g.append(keys[0] == keys[1] if eq else keys[0] != keys[1])
+                            else:
+                                g.append(z3.Distinct(*[keys[i] for i in others]))
+                        si = iter(strs)
+                        name, md, err = None, [], None
+                        for i in range(m):
+                            flat = mk_shape(i, shapes[i])[1]
+                            if role[i] == "name":
+                                if flat is None:
+                                    err = ("InvalidMetadata", keys[i])
+                                elif shapes[i] == "lit":
+                                    is_s = next(si)
+                                    g.append(VAL.is_String(flat[1]) if is_s else z3.Not(VAL.is_String(flat[1])))
+                                    if is_s:
+                                        name = VAL.s(flat[1])
+                                    else:
+                                        err = ("InvalidNameValue", None)
+                                else:
+                                    err = ("InvalidNameValue", None)       # a list / map constant is not a string
+                            else:
+                                if flat is None:
+                                    err = ("InvalidMetadata", keys[i])
+                                else:
+                                    md = [(k, s) for k, s in md if not (role[i] == "description" and k is DESC_K)]
+                                    if role[i] == "other" and eq and any(k is keys[0] for k, _ in md):
+                                        md = [(k, s) for k, s in md if k is not keys[0]]
+                                        md.append((keys[0], flat))
+                                    else:
+                                        md.append((DESC_K if role[i] == "description" else keys[i], flat))
+                            if err:
+                                break
+                        g += [z3.Bool("has.comment.name") if hn else z3.Not(z3.Bool("has.comment.name")),
+                              z3.Bool("has.comment.description") if hd else z3.Not(z3.Bool("has.comment.description"))]
+                        label = f"{'/'.join(role) or 'none'}{'/same-key' if eq else ''}{'/' + ''.join('S' if x else 'x' for x in strs) if strs else ''}/{'N' if hn else '-'}{'D' if hd else '-'}"
+                        if err:
+                            def chk(ex, r, err=err):
+                                if not (isinstance(r, Agg) and r.fields[0].t.eq(z3.StringVal("parse-error"))):
+                                    return False
+                                e = r.fields[1]
+                                if not (isinstance(e, Agg) and e.variant == err[0]):
+                                    return False
+                                return True if err[1] is None else (e.fields[0].t == err[1] if isinstance(e.fields.get(0), Str) else False)
+                            cases.append(Case(label, z3.And(g), None, chk))
+                            continue
+                        fname = name if name is not None else (cname if hn else None)
+                        fmd = list(md)
+                        if hd and not any(k is DESC_K for k, _ in fmd):
+                            fmd.append((DESC_K, ("str", cdesc)))
+
+                        def chk(ex, r, fname=fname, fmd=fmd):
+                            if not (isinstance(r, Agg) and r.fields[0].t.eq(z3.StringVal("built"))):
+                                return False
+                            b = r.fields[1]
+                            if fname is None:
+                                return isinstance(b, Agg) and b.ty == "Result" and b.variant == "Err" and isinstance(b.fields[0], Agg) and b.fields[0].variant == "MissingRuleName"
+                            if not (isinstance(b, Agg) and b.ty == "Result" and b.variant == "Ok"):
+                                return False
+                            rule = b.fields[0]
+                            if not (isinstance(rule, Agg) and rule.ty == "Rule" and isinstance(rule.fields.get(2), Obj) and rule.fields[2].key == "main"):
+                                return False
+                            mm = _meta_matches(ex, rule.fields[1], fmd) if fmd else (isinstance(rule.fields[1], MapV) and not rule.fields[1].layers)
+                            if mm is False:
+                                return False
+                            c = [rule.fields[0].t == fname] + ([mm] if mm is not True else [])
+                            return z3.And(c)
+                        cases.append(Case(label, z3.And(g), None, chk))
+        d = check_paths(run, prog, world, oid, body, cases, "rule-builder", meta={"metadata_items": m, "shapes": list(shapes)}, mandatory_cases=[])
+        out.append((d, {"shapes": list(shapes)}))
+    return out
+
+
+def rulebuilder_scenario(info, cex):
+    """-> rule text for the real Rule::parse and the expected observation, from the model"""
+    from .e3replay import Concretizer, Unrealisable
+    import re as _re
+    C = Concretizer(cex["_model"])
+    shapes = info["shapes"]
+
+    def lit_text(vj):
+        t = vj["t"]
+        if t == "Int":
+            return "i" + vj["v"]
+        if t == "Bool":
+            return "true" if vj["v"] else "false"
+        if t == "None":
+            return "none"
+        if t == "String" and _re.match(r"^[A-Za-z0-9 _.-]*$", vj["v"]):
+            return '"' + vj["v"] + '"'
+        if t == "Float":
+            return "f1.5"
+        if t == "Decimal":
+            return "d" + vj["v"]
+        raise Unrealisable(f"no literal syntax for the model value {vj}")
+    items = []
+    for i, sh in enumerate(shapes):
+        k = C.string(z3.String(f"m{i}.key"))
+        if not _re.match(r"^[a-z_][a-z0-9_]*$", k):
+            raise Unrealisable(f"metadata key {k!r} is not an identifier")
+        a = lambda: lit_text(C.value(z3.Const(f"m{i}.a", VAL)))      # noqa: E731
+        b = lambda: lit_text(C.value(z3.Const(f"m{i}.b", VAL)))      # noqa: E731
+        txt = {"lit": lambda: a(), "nonconst": lambda: "some_field", "list2": lambda: f"[{a()}, {b()}]", "listbad": lambda: f"[{a()}, some_field]",
+               "map1": lambda: "{" + (C.string(z3.String(f"m{i}.inner")) or "k") + ": " + a() + "}", "nested": lambda: f"[[{a()}], {b()}]"}[sh]()
+        items.append(f"@{k}: {txt};")
+    lines = []
+    if C.boolean(z3.Bool("has.comment.name")):
+        n = C.string(z3.String("comment.name"))
+        if n != n.strip() or "\n" in n or not n:
+            raise Unrealisable("comment name with surrounding white space")
+        lines.append("// " + n)
+        if C.boolean(z3.Bool("has.comment.description")):
+            dsc = C.string(z3.String("comment.description"))
+            if dsc != dsc.strip() or "\n" in dsc or not dsc:
+                raise Unrealisable("comment description with surrounding white space")
+            lines.append("// " + dsc)
+    return "\n".join(lines + items + ["i1"])
+
+
+def finish_rulebuilder(run, helper, res, mandatory=True):
+    """Native replay: the model becomes rule TEXT for the real Rule::parse; a reference implementation of the statement (below) computes the
+    expected name / metadata from the same model; VIOLATION only if the real parser's answer differs."""
+    from .e3replay import Unrealisable
+    for d, info in res:
+        if d["verdict"] == "fail":
+            confirmed, notes, seen = 0, [], set()
+            for cex in d.get("cex", []):
+                if cex["case"] in seen:
+                    continue
+                try:
+                    text = rulebuilder_scenario(info, cex)
+                except Unrealisable as e:
+                    notes.append(f"{cex['case']}: {e}")
+                    continue
+                seen.add(cex["case"])
+                got = helper.call("rule", [text])[0]
+                want = reference_rule(text)
+                if norm_rule(got) != norm_rule(want):
+                    confirmed += 1
+                    run.finding(d["id"], cex["case"], f"{cex['why']}; natively: Rule::parse({text!r}) gives {got[:300]} but the statement gives {want[:300]}",
+                                {"engine": "e3-rule", "text": text, "expected": want, "observed": got})
+                else:
+                    notes.append(f"{cex['case']}: the solver's scenario behaves as specified natively")
+            d["replay_notes"] = notes
+            if not confirmed:
+                d["verdict"] = "inconclusive"
+                d["reason"] = "counterexample(s) did not reproduce natively: " + "; ".join(notes)[:300]
+        for c in d.get("cex", []):
+            c.pop("_model", None)
+            c.pop("_case", None)
+        if d["verdict"] == "inconclusive":
+            run.inconc(d["id"], d.get("reason", "no verdict"), mandatory=mandatory)
+
+
+def norm_rule(s):
+    s = s.strip()
+    return "ERR" if s.startswith("ERR") else s
+
+
+def reference_rule(text):
+    """The statement of C14 on the restricted texts the replay generates (`// name`, `// description`, `@key: constant;` items, `i1`):
+    returns the helper's `rule` output format."""
+    import json as _json
+    import re as _re
+    comments = [l[2:].strip() for l in text.split("\n") if l.startswith("//")]
+    items = _re.findall(r"^@([a-z_][a-z0-9_]*): (.*);$", text, _re.M)
+
+    def const(t):
+        t = t.strip()
+        if t.startswith("[") and t.endswith("]"):
+            parts = split_top_level(t[1:-1])
+            vals = [const(p) for p in parts]
+            return None if any(v is None for v in vals) else "(VecValue" + "".join(" " + v for v in vals) + ")"
+        if t.startswith("{") and t.endswith("}"):
+            kvs = []
+            for p in split_top_level(t[1:-1]):
+                k, v = p.split(":", 1)
+                cv = const(v)
+                if cv is None:
+                    return None
+                kvs.append((k.strip(), cv))
+            return "(MapValue" + "".join(f" ({_json.dumps(k)} {v})" for k, v in sorted(kvs)) + ")"
+        if _re.match(r"^i-?\d+$", t):
+            return f"(Int {int(t[1:])})"
+        if t in ("true", "false"):
+            return f"(Bool {t})"
+        if t == "none":
+            return "(NoneLit)"
+        if t.startswith('"'):
+            return "(String " + _json.dumps(t[1:-1]) + ")"
+        if t == "f1.5":
+            return "(Float 1.5 bits=3ff8000000000000)"
+        if _re.match(r"^d\d+$", t):
+            return f"(Decimal {int(t[1:])} scale=0)"
+        return None
+    name, md = None, {}
+    for k, t in items:
+        c = const(t)
+        if c is None:
+            return "ERR"
+        if k == "name":
+            if not c.startswith("(String "):
+                return "ERR"
+            name = _json.loads(c[len("(String "):-1])
+        else:
+            md[k] = c
+    if name is None and comments:
+        name = comments[0]
+    if name is None:
+        return "ERR"
+    if "description" not in md and len(comments) > 1:
+        md["description"] = "(String " + _json.dumps("\n".join(comments[1:])) + ")"
+    desc = "null"
+    if md.get("description", "").startswith("(String "):
+        desc = md["description"][len("(String "):-1]
+    meta = "".join(f" ({_json.dumps(k)} {v})" for k, v in sorted(md.items()))
+    return f"OK (Rule name={_json.dumps(name)} desc={desc} (Meta{meta}) (Int 1))"
+
+
+def split_top_level(s):
+    out, depth, cur = [], 0, []
+    for ch in s:
+        if ch in "[{":
+            depth += 1
+        elif ch in "]}":
+            depth -= 1
+        if ch == "," and depth == 0:
+            out.append("".join(cur))
+            cur = []
+        else:
+            cur.append(ch)
+    if "".join(cur).strip():
+        out.append("".join(cur))
+    return out
